@@ -16,6 +16,7 @@ from concurrent.futures import ThreadPoolExecutor
 from .. import doubles_net as dn
 from .. import env, graph, replay, tlc, trace
 from ..replay import Divergence
+from ._net import graph_traces, jvm_env, validate_jobs
 
 SPEC_DIR = env.SPECS + "/net"
 FLAVORS = ("client", "clienttls", "incomer", "incomertls", "serial", "device")
@@ -35,9 +36,10 @@ def dec(bs):
     return tuple(b - OFF for b in bytes(bs))
 
 
-def cfg_text(flavor, k, props=True):
-    s = ('SPECIFICATION Spec\nCONSTANTS\n  Flavor = "%s"\n  MaxMsgs = %d\n  MaxLen = %d\n  MaxRx = %d\n  MaxChunks = %d\n'
-         % (flavor, k["MaxMsgs"], k["MaxLen"], k["MaxRx"], k["MaxChunks"]))
+def cfg_text(flavors, modes, k, props=True):
+    s = ('SPECIFICATION Spec\nCONSTANTS\n  Flavors = {%s}\n  Modes = {%s}\n  MaxMsgs = %d\n  MaxLen = %d\n  MaxRx = %d\n  MaxChunks = %d\n'
+         % (", ".join('"%s"' % f for f in flavors), ", ".join('"%s"' % m for m in modes),
+            k["MaxMsgs"], k["MaxLen"], k["MaxRx"], k["MaxChunks"]))
     if props:
         s += ("INVARIANT Conservation\nINVARIANT WlogEqualsWire\nINVARIANT RxInOrder\nINVARIANT NoEmptyResidue\n"
               "INVARIANT NoTxBeforeConnect\nPROPERTY CutoffStops\n")
@@ -241,14 +243,6 @@ def _plain(r):
     return {"k": r["k"], "n": r["n"], "d": tuple(r["d"])}
 
 
-def graph_traces(g, max_len):
-    """edge cover of a graph whose steps are named by the `act` variable of the destination state"""
-    for u, es in g.out.items():
-        g.out[u] = [(_label(g.states[v]["act"]), (g.states[v]["act"]["a"], (g.states[v]["act"],)), v) for (lab, a, v) in es]
-    paths = graph.edge_cover(g, max_len=max_len)
-    return paths, replay.graph_paths_to_traces(g, paths)
-
-
 def _label(act):
     a = act["a"]
     if a == "Connect":
@@ -375,10 +369,11 @@ def _jres(res):
     return res
 
 
-def trace_cfg(flavor):
-    return ('SPECIFICATION TraceSpec\nCONSTANTS\n  Flavor = "%s"\n  MaxMsgs = 0\n  MaxLen = 0\n  MaxRx = 0\n  MaxChunks = 0\n'
-            'CONSTRAINT TraceOK\nINVARIANT Conservation\nINVARIANT WlogEqualsWire\nINVARIANT RxInOrder\nINVARIANT NoEmptyResidue\n'
-            'INVARIANT NoTxBeforeConnect\nCHECK_DEADLOCK FALSE\n' % flavor)
+def trace_cfg():
+    return cfg_text(FLAVORS, ["both"], {"MaxMsgs": 0, "MaxLen": 0, "MaxRx": 0, "MaxChunks": 0}, props=False).replace(
+        "SPECIFICATION Spec", "SPECIFICATION TraceSpec") + (
+        "CONSTRAINT TraceOK\nINVARIANT Conservation\nINVARIANT WlogEqualsWire\nINVARIANT RxInOrder\nINVARIANT NoEmptyResidue\n"
+        "INVARIANT NoTxBeforeConnect\nCHECK_DEADLOCK FALSE\n")
 
 
 ACTIONS = {
@@ -399,74 +394,67 @@ def run_c24(ctx):
                 "scripts run on the real classes and validated by TLC against TxStreamTrace.tla. distinct = graph edges + accepted traces")
     ctx.assume("TLC, vf/doubles_net.py (ScriptedSocket, FakeTlsContext, ScriptedSerial, FakeOsModule) and the projection functions are trusted")
     ctx.assume("ssl is not modelled: the TLS classes run over a FakeTlsContext and the double raises ssl.SSLWant*Error below them")
-    consts = ctx.pick({"MaxMsgs": 2, "MaxLen": 2, "MaxRx": 2, "MaxChunks": 2}, {"MaxMsgs": 3, "MaxLen": 3, "MaxRx": 3, "MaxChunks": 2})
+    consts = ctx.pick({"MaxMsgs": 2, "MaxLen": 3, "MaxRx": 3, "MaxChunks": 2}, {"MaxMsgs": 3, "MaxLen": 4, "MaxRx": 4, "MaxChunks": 3})
+    modes = ["tx", "rx", "both"]
     total = cov = 0
-    dots = {fl: env.subdir("c24") + "/%s.dot" % fl for fl in FLAVORS}
-
-    def model(fl):
-        return tlc.run("TxStream", cfg_text(fl, consts), spec_dir=SPEC_DIR, dump_dot=dots[fl], deadlock=False, tag="c24" + fl,
-                       workers=max(1, min(4, env.NCPU // 3)))
-
-    with ThreadPoolExecutor(max_workers=max(1, min(len(FLAVORS), env.NCPU // 2))) as ex:
-        results = dict(zip(FLAVORS, ex.map(model, FLAVORS)))
-    for fl in FLAVORS:
-        res = results[fl]
-        ctx.add_model(res, "TxStream/" + fl, dict(consts, Flavor=fl))
-        if not res.ok:
-            ctx.diverge(Divergence("C24", "model", res.error_name or res.error, "TxStream/" + fl,
-                                   "specification property violated in the model",
-                                   steps=[{"action": a, "state": s} for a, s in res.trace]))
-            continue
-        g = graph.load_dot(dots[fl])
+    dot = env.subdir("c24") + "/txstream.dot"
+    res = tlc.run("TxStream", cfg_text(FLAVORS, modes, consts), spec_dir=SPEC_DIR, dump_dot=dot, deadlock=False, tag="c24", coverage=False,
+                  extra_env=jvm_env(ctx.quick))
+    ctx.add_model(res, "TxStream", dict(consts, Flavors=list(FLAVORS), Modes=modes))
+    if not res.ok:
+        ctx.diverge(Divergence("C24", "model", res.error_name or res.error, "TxStream", "specification property violated in the model",
+                               steps=[{"action": a, "state": s} for a, s in res.trace]))
+    else:
+        g = graph.load_dot(dot)
         # vacuity guard: TLC labels these steps "Next" (their parameters range over state dependent sets), so count them here
         taken = {}
+        nonfull = {}
         for st in g.states.values():
-            taken[st["act"]["a"]] = taken.get(st["act"]["a"], 0) + 1
-        missing = [a for a in ACTIONS[fl] if not taken.get(a)]
+            k = (st["flavor"], st["act"]["a"])
+            taken[k] = taken.get(k, 0) + 1
+            if st["act"]["a"].startswith("ServiceTx") and any(r["k"] in ("part", "zero", "block") for r in st["act"]["s"]):
+                nonfull[st["flavor"]] = nonfull.get(st["flavor"], 0) + 1
+        missing = ["%s/%s" % (fl, a) for fl in FLAVORS for a in ACTIONS[fl] if not taken.get((fl, a))]
+        missing += ["%s/partial-zero-or-would-block send" % fl for fl in FLAVORS if not nonfull.get(fl)]
         if missing:
-            raise tlc.TlcError("vacuous model run (TxStream/%s): actions never taken: %s" % (fl, ", ".join(missing)))
-        nonfull = sum(1 for st in g.states.values() if any(r["k"] in ("part", "zero", "block") for r in st["act"]["s"] if isinstance(r, dict)))
-        if not nonfull:
-            raise tlc.TlcError("vacuous model run (TxStream/%s): no partial / zero / would-block answer explored" % fl)
-        for a, n in taken.items():
+            raise tlc.TlcError("vacuous model run (TxStream): never taken: %s" % ", ".join(missing))
+        for (fl, a), n in taken.items():
             ctx.actions.setdefault(a, [0, 0])[1] += n
-        paths, traces = graph_traces(g, max_len=40)
-        n, divs = replay.replay("C24", traces, lambda init, fl=fl: StreamAdapter(fl))
+        paths, traces = graph_traces(g, 40, _label)
+        n, divs = replay.replay("C24", traces, lambda init: StreamAdapter(str(init["flavor"])))
         for d in divs:
+            fl = d.steps[0]["state"]["flavor"] if d.steps else "?"
             d.where = "%s:%s" % (fl, d.where)
         ctx.diverge(divs)
         total += g.nedges
         cov += graph.covered_edges(paths)
-        ctx.add_validated(len(traces), {"flavor": fl, "path": [s[0] for s in traces[len(traces) // 2]][:30]})
+        for fl in ("clienttls", "serial"):
+            ex = [t for t in traces if t[0][2]["flavor"] == fl]
+            ctx.add_validated(0, {"flavor": fl, "path": [s[0] for s in ex[len(ex) // 2]][:30]})
+        ctx.add_validated(len(traces))
     # binding B
     rng = random.Random(ctx.seed)
     acc = ntr = 0
-    plan = ctx.pick([(40, 150)], [(300, 300), (4, 10000)])
+    plan = ctx.pick([(40, 150)], [(400, 300), (4, 10000)])
     jobs = []
-    for fl in FLAVORS:
-        for (count, steps) in plan:
-            jobs.append((fl, steps, [random_trace(rng, fl, steps) for _ in range(count)]))
-
-    def validate(job):
-        fl, steps, trs = job
-        return trace.validate("TxStreamTrace", trace_cfg(fl), SPEC_DIR, trs, batch=100 if steps < 1000 else 1,
-                              procs=max(1, env.NCPU // 2))
-
-    with ThreadPoolExecutor(max_workers=max(1, min(len(jobs), env.NCPU // 2))) as ex:
-        outs = list(ex.map(validate, jobs))
-    for (fl, steps, trs), out in zip(jobs, outs):
+    for (count, steps) in plan:
+        trs = [random_trace(rng, fl, steps) for fl in FLAVORS for _ in range(count)]
+        rng.shuffle(trs)
+        jobs.append(("TxStreamTrace", trace_cfg(), trs, ctx.pick(120, 200) if steps < 1000 else 1))
+    outs = validate_jobs(jobs, SPEC_DIR, quick=ctx.quick)
+    for (_, _, trs, _), out in zip(jobs, outs):
         ntr += len(trs)
         ctx.states += out.states
         ctx.transitions += out.generated
         acc += len(out.accepted)
-        ctx.add_validated(len(out.accepted), {"flavor": fl, "trace": trs[0][:6]})
+        ctx.add_validated(len(out.accepted), {"trace": trs[0][:6]})
         for i, pref in sorted(out.rejected.items())[:10]:
             ev = trs[i][pref] if 0 <= pref < len(trs[i]) else {}
-            ctx.diverge(Divergence("C24", "rejected", ev.get("ev", "?"), "%s:trace" % fl,
+            ctx.diverge(Divergence("C24", "rejected", ev.get("ev", "?"), "%s:trace" % trs[i][0]["flavor"],
                                    "recorded execution is not a behaviour of TxStream.tla at event %d: %s" % (pref + 1, _short(ev)),
-                                   steps=trs[i][max(0, pref - 8):pref + 1]))
+                                   steps=trs[i][:1] + trs[i][max(1, pref - 8):pref + 1]))
         for (i, err, name, tr) in out.model_errors[:5]:
-            ctx.diverge(Divergence("C24", "rejected", name or err, "%s:trace-invariant" % fl,
+            ctx.diverge(Divergence("C24", "rejected", name or err, "%s:trace-invariant" % trs[i][0]["flavor"],
                                    "invariant %s violated on a recorded execution" % name, steps=trs[i][:40]))
     ctx.exhaustive = (cov == total)
     ctx.extra.update({"graph_edges": total, "edges_replayed": cov, "random_traces": ntr, "random_traces_accepted": acc,
